@@ -84,14 +84,14 @@ theorem scanStr_escChar {q : Char} (hq : q = '"' ∨ q = '\'') (k : Nat) (c : Ch
     scanStr q (escChar q k c ++ tail) = (scanStr q tail).map (fun (s, rest) => (c :: s, rest)) := by
   have hq1 : q ≠ '\\' := by rcases hq with rfl | rfl <;> decide
   unfold escChar
-  split_ifs with h1 h2 h3 h4 h5 h6 h7 h8 h9 h10 h11 h12
+  split_ifs with h0 h1 h2 h3 h4 h5 h7 h8 h9 h10 h11 h12
+  · exact scanStr_uchar hq1 _ c tail
   · subst h1; exact scanStr_esc hq1 (by rcases hq with rfl | rfl <;> decide) (by rcases hq with rfl | rfl <;> decide)
       (by rcases hq with rfl | rfl <;> decide) tail
   · subst h2; exact scanStr_esc hq1 (by decide) (by decide) (by decide) tail
   · subst h3; exact scanStr_esc hq1 (by decide) (by decide) (by decide) tail
   · subst h4; exact scanStr_esc hq1 (by decide) (by decide) (by decide) tail
   · subst h5; exact scanStr_esc hq1 (by decide) (by decide) (by decide) tail
-  · exact scanStr_uchar hq1 _ c tail
   · exact scanStr_raw h1 h2 h4 h5 tail
   · subst h7; exact scanStr_esc hq1 (by decide) (by decide) (by decide) tail
   · exact scanStr_raw h1 h2 h4 h5 tail
